@@ -680,6 +680,8 @@ def wl_spin_chains(rng, rec, tier):
             desc["L"] = L
         j = tuple(np.round(rng.normal(size=3), 3)) if rng.random() < 0.6 else float(np.round(rng.normal(), 3))
         bz = float(np.round(rng.normal(), 3))
+        if rng.random() < 0.1:
+            j = 0.0
         want = rl.dense(qu.ham_heis(L, j=j, b=bz, cyclic=cyclic, S=S))
         m = gen.attempt(qtn.MPO_ham_heis, L, j=j, bz=bz, cyclic=cyclic, S=S)
         if m is not None:
@@ -689,6 +691,8 @@ def wl_spin_chains(rng, rec, tier):
             check("localham", localham_dense(lh, int(2 * S + 1)), want)
     elif which == "ising":
         jz, bx = float(np.round(rng.normal(), 3)), float(np.round(rng.normal(), 3))
+        if rng.random() < 0.1:
+            jz = 0.0          # no coupling at all: the field alone is still the operator
         want = rl.dense(qu.ham_ising(L, jz=jz, bx=bx, cyclic=cyclic))
         m = gen.attempt(qtn.MPO_ham_ising, L, j=jz, bx=bx, cyclic=cyclic)
         if m is not None:
